@@ -206,6 +206,13 @@ def make_check():
         else:
             ref = state["ref"]
             op = info["op"]
+            fails.extend(G.check_rejected(ex, info))
+            if info.get("target") is not None and info["target"] is not root:
+                # a call on another sequence (the second tree the case keeps alive, or a member that is itself a
+                # sequence): the list at the root received NO operation — whatever the call did or rejected, with
+                # members of the root as arguments or not, the root still equals the reference (state clauses below)
+                before_pairs = list(ref.items)
+                op = None
             if op is not None and "skip" not in (info["out"] if isinstance(info["out"], dict) else {}):
                 name = op["op"]
                 raised = info["raised"]
@@ -234,6 +241,15 @@ def make_check():
                         items.append(args[0])
                     elif name in ("extend", "iadd") and args is not None:
                         items.extend(args)
+                    elif name in ("insert", "setitem") and "ix" in op:
+                        # an index that is no integer: a Python list raises TypeError and stays as it is
+                        try:
+                            if name == "insert":
+                                items.insert(G.bad_index(op), args[0] if args else None)
+                            else:
+                                items[G.bad_index(op)] = args[0] if args else None
+                        except TypeError:
+                            exp_exc = "TypeError"
                     elif name == "insert" and args:
                         items.insert(op["i"], args[0])
                     elif name == "setitem" and args:
@@ -256,6 +272,9 @@ def make_check():
                             items.sort(key=lambda p: p[1], reverse=bool(op["rev"]))
                         elif op.get("key") == "ulen":
                             items.sort(key=lambda p: len(p[1]), reverse=bool(op["rev"]))
+                        elif op.get("key") == "raise":
+                            if len(items) >= 2:
+                                exp_exc = "KeyRaises"        # the key function fails on its second call: nothing moves
                         elif op.get("key") in ("len", "field"):
                             if any(p.extra is None or p.extra.get(op["key"]) is None for p in items):
                                 exp_exc = "KeyRaises"        # the key function raises on some member: so must sort()
@@ -383,7 +402,7 @@ def make_check():
                     if sorted(repr(G.vj(v)) for v, _ in now_items) != sorted(repr(G.vj(v)) for v, _ in before_pairs):
                         fail("keyless-sort-rearranges", G.vj([v for v, _ in before_pairs]), G.vj([v for v, _ in now_items]))
                     ref.items = now_items
-                elif name == "imul_bad":
+                elif name == "imul_bad" or (name in ("insert", "setitem") and "ix" in op):
                     if rname != exp_exc:
                         fail("raises-like-list", exp_exc, rname)
                 elif name == "sort" and exp_exc == "KeyRaises":
@@ -445,6 +464,13 @@ def make_check():
             fail("members-typed", root.member_schema.__name__, "a raw value is stored as a member")
             return fails
         got = [m.value for m in root]
+        if ex.taint and any(id(m) in ex.taint for m in root):
+            # ALIASING (outside the quantifier, see `assumptions`): a member of the root is listed by a second
+            # container (or twice by the root) because a SUCCESSFUL call was handed a live member; a later in-place
+            # set through the other holder changes it here too, which no list of values can follow.  The reference
+            # is resynchronised while that lasts; typing, length and .value are still checked.  Rejected calls never
+            # get here: they must change nothing (rejected-changes-nothing).
+            ref.items = [_item(m) for m in root]
         if got != ref.values():
             fail("members-equal-list", G.vj(ref.values()), G.vj(got))
             ref.items = [_item(m) for m in root]     # resynchronise: report each divergence once
@@ -468,6 +494,8 @@ def make_check():
                 break
         if kind == "list":
             for i, m in enumerate(root):
+                if id(m) in ex.taint:
+                    continue        # aliased: its parent pointer designates the holder it was handed to last
                 slot = m.parent
                 nm = getattr(slot, "name", None)
                 if nm != str(i):
@@ -556,6 +584,9 @@ def _dict(cid, fields, name=None, policy="subset"):
 
 def _op(s):
     return {"t": 0, "s": s}
+
+
+FAILURE_PATH_SHARE = 0.25
 
 
 class C09(Property):
@@ -736,6 +767,10 @@ class C09(Property):
             case = {"schema": schema, "init": init, "ops": ops}
             if G.has_flat(case):
                 case["nomodel"] = True
+            if rng.random() < FAILURE_PATH_SHARE and not mixed:
+                # failure / recovery paths (oracle only): a second sequence of the same class kept alive, live members
+                # as arguments, rejected calls (out-of-range / non-integer indexes, size mismatches, failing sort keys)
+                G.inject_failure_paths(rng, case, schema, any_class=False, t_max=0)
             yield case
 
     # -- running
@@ -761,6 +796,8 @@ class C09(Property):
         return super().compare(impl_obs, model_obs)
 
     def classify(self, case, failure):
+        if G.rejected_placement_reparents(case, failure):
+            return "KF-C09-d"
         if set_feeds_elements_to_set(case, failure):
             return "KF-C09-c"
         if eq_search_with_unadapted(case, failure):
@@ -784,7 +821,8 @@ class C09(Property):
             return ["view-raises"]
         t = ["model=" + ("oracle-only" if case.get("nomodel") else "compared"), "kind=" + case["schema"]["k"], "member=" + case["schema"]["subs"][0]["k"], "route=" + case["init"]["route"],
              "ops=%d" % len(case["ops"])]
-        for o, st in zip(case["ops"], obs["steps"][1:]):
+        fps = obs.get("_fp") or [None] * len(obs["steps"])
+        for idx, (o, st) in enumerate(zip(case["ops"], obs["steps"][1:]), 1):
             out = st["out"]
             name = o["s"]["op"]
             if isinstance(out, dict) and "exc" in out:
@@ -796,6 +834,19 @@ class C09(Property):
             a = o["s"].get("a") or {}
             if "new" in a or "pool" in a:
                 t.append("arg:element")
+            fp = fps[idx]
+            if fp:
+                if fp["raised"]:
+                    t.append("fp:rejected:%s" % fp["route"] if fp["route"] else "fp:raised-after-effects")
+                    t.append(("fp:live-arg:" if fp["live"] else "fp:no-live-arg:") + ("rejected" if fp["route"] else "raised-after-effects"))
+                elif fp["live"]:
+                    t.append("fp:live-arg:accepted")
+                if fp["tree"]:
+                    t.append("fp:target-in-second-tree")
+                if fp["taint"]:
+                    t.append("fp:aliased-elements-present")
+        if G.has_failure_paths(case):
+            t.append("fp:case")
         t.append("maxlen=%d" % min(12, max(s["view"]["len"] for s in obs["steps"])))
         return sorted(set(t))
 
